@@ -7,6 +7,7 @@ package world
 import (
 	"net/http"
 	"os"
+	"sync"
 
 	"verif/sim/internal/sched"
 )
@@ -251,6 +252,40 @@ type reqSink struct{ b []byte }
 
 //go:norace
 func (s *reqSink) Write(p []byte) (int, error) { s.b = append(s.b, p...); return len(p), nil }
+
+// routedSink is what a request-scoped logger is given to write to. The logging library keeps a
+// process-wide registry keyed by every writer it has ever been handed, so a writer per request
+// would pin every request (and everything it references) for the life of the worker process:
+// workers grew by ~15 MB/s until the machine ran out of memory in the thorough tier. The sinks
+// are therefore few, long-lived and keyed by request name; each forwards to the request that
+// claimed it last.
+type routedSink struct{ q *Req }
+
+//go:norace
+func (s *routedSink) Write(p []byte) (int, error) {
+	if s.q != nil {
+		return s.q.logSink.Write(p)
+	}
+	return len(p), nil
+}
+
+var (
+	sinkMu sync.Mutex
+	sinks  = map[string]*routedSink{}
+)
+
+//go:norace
+func sinkFor(q *Req) *routedSink {
+	sinkMu.Lock()
+	defer sinkMu.Unlock()
+	s := sinks[q.Name]
+	if s == nil {
+		s = &routedSink{}
+		sinks[q.Name] = s
+	}
+	s.q = q
+	return s
+}
 
 // Labeler is an interface type mapped (sometimes) in request scope with MapTo.
 type Labeler interface{ Label() string }
